@@ -222,8 +222,13 @@ func eval(c Case, dir string) hx.Result {
 				// a request that fails (one name does not resolve) must leave nothing behind: neither in
 				// the OCI spec passed in nor in the cache (later injections of the history are judged as always)
 				g := initial()
-				unres, ferr := cache.InjectDevices(g, q, "vendor.com/class=no-such-device", "second.org/class=dev2")
-				if ferr == nil || len(unres) != 1 {
+				req := []string{q, "vendor.com/class=no-such-device", "second.org/class=dev2", "second.org/class=no-such-either"}
+				sent := append([]string{}, req...)
+				unres, ferr := cache.InjectDevices(g, req...)
+				if !reflect.DeepEqual(req, sent) {
+					return fail("failing-injection-modified-the-request", fmt.Sprintf("a failed injection changed the caller's request slice from %v to %v", sent, req), step, sent, req)
+				}
+				if ferr == nil || len(unres) != 2 {
 					return fail("failing-injection-accepted", fmt.Sprintf("a request with an unknown device returned %v, %v", unres, ferr), step, nil, nil)
 				}
 				if ok, where := refmodel.OCIEqual(initial(), g); !ok {
